@@ -227,6 +227,62 @@ def make_dir(rng, ctx, root, same_stem=False, carry=False, probe=None, full=Fals
     return [(rel, cls) for rel, cls, _ in files]
 
 
+def dirwalk_replay(ctx):
+    """DirWalk.tla: TLC checks the generator design against the abstract walk for every tree in the bound (every file in
+    scope exactly once, equal sizes included) and writes the table of trees; sampled rows are created on disk and walked by the
+    real dirWalk in all four modes: the (input, output) pairs must be exactly the abstract ones, no path twice."""
+    import fnmatch
+    from ..tlc import raw
+    from TotalDepth.util import DirWalk
+    names, dirs = ['a1', 'b2', 'c3'], ['a9', 'b1']
+    rank = {n: i for i, n in enumerate(sorted(names + dirs))}
+
+    def consts(order, match=()):
+        return dict(FileNames=frozenset(names), DirNames=frozenset(dirs), Sizes=raw('{1, 2}'), Match=frozenset(match), BigFirstOrder=order,
+                    Rank=raw('[n \\in {%s} |-> CASE %s]' % (', '.join('"%s"' % n for n in rank), ' [] '.join('n = "%s" -> %d' % (n, i) for n, i in rank.items()))))
+    ctx.tlc_check('MC_DirWalk', 'DirWalk', consts=consts('ascending'), defs='ASSUME Refines', coverage=False, timeout=900)
+    ctx.tlc_check('MC_DirWalk_match', 'DirWalk', consts=consts('ascending', ['a1', 'c3']), defs='ASSUME Refines', coverage=False, timeout=900)
+    r = ctx.tlc_check('MC_DirWalk_order', 'DirWalk', consts=consts('ascending'), defs='ASSUME LargestFirst', coverage=False, timeout=900, expect_ok=False)
+    ctx.notes['dirwalk_big_first_order'] = ('as coded gen_big_first sorts (size, name) ascending: TLC refutes the documented "largest first" for the coded order '
+                                            '(not part of C12: any order of tasks is allowed)') if not r.ok() else 'largest first holds'
+    ft = os.path.join(ctx.wdir('dirwalk'), 'rows.json')
+    ctx.tlc_check('MC_DirWalkTable', 'DirWalkTable', consts=consts('ascending'), env={'OUT_TABLE': ft}, workers=1, coverage=False, timeout=900)
+    rows = json.load(open(ft))
+    rng = ctx.subrng('dirwalk')
+    rows = rng.sample(rows, min(len(rows), ctx.pick(1200, 12000)))
+    root = ctx.wdir('dirwalk_trees')
+    for ri, row in enumerate(rows):
+        top = os.path.join(root, 't%d' % ri, 'in')
+        os.makedirs(top)
+        for n, sz in row['files']:
+            with open(os.path.join(top, n), 'wb') as f:
+                f.write(b'x' * sz)
+        for d, lst in row['dirs']:
+            os.makedirs(os.path.join(top, d))
+            for n, sz in lst:
+                with open(os.path.join(top, d, n), 'wb') as f:
+                    f.write(b'x' * sz)
+        scope = [tuple(r) for r in row['scope']]
+        equal_sizes = len({sz for _n, sz in row['files']}) < len(row['files'])
+        ctx.case(('dirwalk', ri), equal_sizes or bool(row['dirs']))
+        for big in (False, True):
+            for out in ('', os.path.join(root, 't%d' % ri, 'out')):
+                for pat in ('', '*1') if ri % 4 == 0 else ('',):
+                    try:
+                        got = list(DirWalk.dirWalk(top, out, pat, row['rec'], big))
+                    except Exception as e:
+                        ctx.fail('dirWalk raised %s: %s on %s' % (type(e).__name__, e, json.dumps(row)[:300]), dict(row=row), sig=dict(kind='dirwalk-exception'))
+                        continue
+                    want = sorted((os.path.join(top, *r), os.path.join(out, *r) if out else '') for r in scope if not pat or fnmatch.fnmatch(r[-1], pat))
+                    pairs = sorted((g.filePathIn, g.filePathOut) for g in got)
+                    if pairs != want:
+                        ctx.fail('dirWalk(recursive=%s, bigFirst=%s, out=%r, match=%r) yields %r, the tree holds %r; tree %s' % (
+                            row['rec'], big, bool(out), pat, [os.path.relpath(a, top) for a, _ in pairs], [os.path.relpath(a, top) for a, _ in want], json.dumps(row)[:300]),
+                            dict(row=row, big=big), sig=dict(kind='dirwalk', big=big, equal_sizes=equal_sizes))
+        shutil.rmtree(os.path.join(root, 't%d' % ri), ignore_errors=True)
+    ctx.notes['dirwalk_trees_replayed'] = len(rows)
+
+
 def run(ctx):
     repo.setup()
     from ..core import quiet_logging
@@ -240,6 +296,7 @@ def run(ctx):
     from TotalDepth.common import Slice
     from TotalDepth.util import DirWalk
     design(ctx)
+    dirwalk_replay(ctx)
     rng = ctx.subrng('c12')
     wd = ctx.wdir('dirs')
     conv = {'RP66V1': RT.single_rp66v1_file_to_las, 'LIS': LT.single_lis_file_to_las, 'BIT': BT.single_bit_path_to_las_path}
